@@ -105,6 +105,7 @@ def stages(tier, seed, witness_search=False):
     for ln in [0, 1, 64, 1000, 1024, 1025, 5000, 70000, 200000]:
         zs.append(Script([f"D zeroscan h {ln} 0"], tags=("zeroize-hasher",)))
         zs.append(Script([f"D zeroscan hash {ln} 0"], tags=("zeroize-hash",)))
+        zs.append(Script([f"D zeroscan hashu {ln} 0"], tags=("zeroize-hash-every-alignment",)))
         for ex in [0, 10, 64, 200]:
             zs.append(Script([f"D zeroscan x {ln} {ex}"], tags=("zeroize-reader",)))
         for ex in [1, 10, 63, 65, 200]:
